@@ -222,6 +222,9 @@ func checkC04(c C04Case, r *Rec) *Violation {
 		if o.Panic != nil {
 			return Violf("C04: TryEval panics\n%s\n%v", describe(), o)
 		}
+		if len(log.KeyErrs) != 0 {
+			return Violf("C04: TryEval asks the fetcher under a wrong key: %v\n%s", log.KeyErrs, describe())
+		}
 		// TryEvalBool mirrors TryEval
 		{
 			f := NewFetcher(u, cc, log)
@@ -277,6 +280,30 @@ func checkC04(c C04Case, r *Rec) *Violation {
 				if k < 0 || k > 255 {
 					mapSelected = true
 				}
+			}
+			// a caller's fetcher that embeds the library's map fetcher - holding stale values for the
+			// unavailable variables - and overrides Cached with the truth: same answer as over the
+			// harness's fetcher with that availability (only values: no failing / unbound variable available)
+			clean := len(c.Completions) > 0
+			for _, vd := range u.Vars {
+				if vd.Mode != 0 && avail[vd.Name] {
+					clean = false
+				}
+			}
+			if clean && !c.Raw && !seqF.DNEAsValue {
+				stale := map[string]interface{}{}
+				for n, v := range supplied {
+					stale[n] = v
+				}
+				for i, n := range c.Unavail {
+					stale[n] = c.Completions[0][i].X
+				}
+				w := &freshnessFetcher{MapVarFetcher: eval.NewMapVarFetcher(stale), fresh: avail}
+				ow := Safe(func() (eval.Value, error) { return e.TryEval(&eval.Ctx{VariableFetcher: w}) })
+				if !SameOutcomeLoose(ow, o) {
+					return Violf("C04: TryEval over a caller's fetcher that embeds the map fetcher (stale values for the unavailable variables) and overrides Cached differs from TryEval over a fetcher with the same availability\n%s\nstale=%v\nwrapper=%v\nplain=%v", describe(), stale, ow, o)
+				}
+				r.Class("library-context:caller-fetcher-embedding-the-map-fetcher")
 			}
 			if allSupplied {
 				ctx := eval.NewCtxFromVars(cc, supplied)
